@@ -269,6 +269,17 @@ def run(rep, facts, tier):
     rep.check(ok_reg, 'R02.6', 'process_writer_command/registered-with-all-readers', 'notify_new_cache_change for every element of self.readers',
               'a new sample is not registered as unsent with every reader proxy', pw.where())
 
+    # ... and registering has an effect: notify_new_cache_change(sn) puts sn into the proxy's unsent set on every path (mutation triage)
+    nn = fx.find('rtps::rtps_reader_proxy::RtpsReaderProxy::notify_new_cache_change')
+    rep.analysed(nn)
+    ogn = Origins(nn, summaries=False)
+    ins = [(bb, 'term') for bb, t in nn.calls() if callee_res(t).endswith('::insert') and has_field(ogn.of_operand(t['args'][0], bb, 'term'), 'unsent_changes') and
+           ogn.of_operand(t['args'][1], bb, 'term') == ('param', 2)]
+    okn = len(ins) == 1 and all(Pos(nn).every_path_passes(None, (r, 'term'), via_pos=ins, from_entry=True) for r in nn.return_blocks())
+    rep.check(okn, 'R02.6', 'notify_new_cache_change/records', 'unsent_changes.insert(sequence_number) on every path',
+              'notify_new_cache_change does not put the new sequence number into the unsent set of the reader proxy on every path: a pushed sample that is lost is not offered again '
+              'by the repair worker until the reader asks for exactly that number', nn.where())
+
     # ------------------------------------------------------------ R02.5 (shared with C01 R01.6 / C03 R03.6)
     rep.rule('R02.5', 'GAP bookkeeping at the reader: an exclusive "..._before" bound (gapList.base, HEARTBEAT.first) used as the end of an inclusive range is decremented; otherwise a sample the '
                       'writer still holds is marked unavailable, never requested and acknowledged: the pair goes quiet with the sample missing for good')
